@@ -23,6 +23,8 @@ func resolveCatalogRefs(c *catalog.Catalog, rvs []*ast.RangeVar, args []paramRef
 	// TODO: Deprecate defaultTable
 	var defaultTable *ast.TableName
 	var tables []*ast.TableName
+	// tables that are visible under their own name (range vars without alias)
+	unaliased := map[*ast.TableName]bool{}
 
 	parameterName := func(n int, defaultName string) string {
 		if n, ok := names[n]; ok {
@@ -44,6 +46,7 @@ func resolveCatalogRefs(c *catalog.Catalog, rvs []*ast.RangeVar, args []paramRef
 			defaultTable = fqn
 		}
 		if rv.Alias == nil {
+			unaliased[fqn] = true
 			continue
 		}
 		aliasMap[*rv.Alias.Aliasname] = fqn
@@ -137,7 +140,8 @@ func resolveCatalogRefs(c *catalog.Catalog, rvs []*ast.RangeVar, args []paramRef
 						search = []*ast.TableName{original}
 					} else {
 						for _, fqn := range tables {
-							if fqn.Name == alias {
+							// an aliased table cannot be referred to by its own name
+							if fqn.Name == alias && unaliased[fqn] {
 								search = []*ast.TableName{fqn}
 							}
 						}
